@@ -203,10 +203,25 @@ def _scan(ctx, u, f, name, algo, role):
             if l.get('kind') == 'MemberExpr' and l.get('name') in ('from', 'to') and 'civil_transition' in (qtype(kids(l)[0]) + dtype(kids(l)[0])):
                 assigns.setdefault(l.get('name'), []).append((x, args[1]))
     nfrom, nto = len(assigns.get('from', [])), len(assigns.get('to', []))
-    ctx.check(nfrom == nto and nfrom >= 1, 'C11-sib', '%s: from/to assigned in pairs' % short, f,
-              'from and to are not assigned together', construct='pairs:%s' % short, detail='%d/%d' % (nfrom, nto))
     entries = []
     from ..symval import lin_str
+    # a file-local helper that reports one entry through its civil_transition parameter: each call reports its argument
+    n_helper = 0
+    for (uu_, hf) in ctx.scope(f)[1:]:
+        hp = _report_helper(ctx, hf)
+        if hp is None:
+            continue
+        from ..callgraph import fkey as _fkey
+        for x in walk(f):
+            if x.get('kind') == 'CallExpr' and callee(x) and callee(x)[0] == 'fn' and \
+                    _fkey(hf) in (ctx.G.resolve_decl(callee(x)[1]) if callee(x)[1].get('_qn') else ()):
+                t_ = single(sv.value_ast(call_args(x)[hp]) or ())
+                n_helper += 1
+                if t_ is not None and t_[0] == 'ptr':
+                    t_ = ('elem', t_[1], t_[2])
+                entries.append((x, render(t_) if t_ is not None else '?'))
+    ctx.check(nfrom == nto and nfrom + n_helper >= 1, 'C11-sib', '%s: from/to assigned in pairs' % short, f,
+              'from and to are not assigned together', construct='pairs:%s' % short, detail='%d/%d' % (nfrom, nto))
     for (xf, vf), (xt, vt) in zip(assigns.get('from', []), assigns.get('to', [])):
         tf, tt = single(sv.value_ast(vf) or ()), single(sv.value_ast(vt) or ())
         kf, kt = render(tf), render(tt)
@@ -297,6 +312,39 @@ def _scan(ctx, u, f, name, algo, role):
                 'no return is guarded by the search having run off the %s of the table' % ('end' if role == 'upper' else 'start'),
                 construct='exhausted:%s' % short)
     return out
+
+
+def _report_helper(ctx, hf):
+    """Index of the parameter X of a helper whose whole effect is  out->from = X.prev_civil_sec + 1; out->to = X.civil_sec
+    (None when hf is not such a helper)."""
+    from ..symval import SymVal, render, single
+    from ..frontend import params_of
+    assigns = {}
+    for x in walk(hf):
+        if x.get('kind') == 'CXXOperatorCallExpr' and callee(x) and callee(x)[1].get('name') == 'operator=':
+            args = call_args(x)
+            l = peel(args[0])
+            if l.get('kind') == 'MemberExpr' and l.get('name') in ('from', 'to') and 'civil_transition' in (qtype(kids(l)[0]) + dtype(kids(l)[0])):
+                assigns.setdefault(l.get('name'), []).append(args[1])
+    if len(assigns.get('from', [])) != 1 or len(assigns.get('to', [])) != 1:
+        return None
+    sv = SymVal(ctx, hf, helpers=False)
+    tf, tt = single(sv.value_ast(assigns['from'][0]) or ()), single(sv.value_ast(assigns['to'][0]) or ())
+    if tf is None or tt is None or tf[0] != 'int' or tf[2].get('') != 1:
+        return None
+    syms = [k_ for k_ in tf[2] if k_]
+    m1 = re.match(r'^(.+)\.prev_civil_sec$', syms[0]) if len(syms) == 1 and tf[2][syms[0]] == 1 else None
+    m2 = re.match(r'^(.+)\.civil_sec$', render(tt))
+    if not (m1 and m2 and m1.group(1) == m2.group(1)):
+        return None
+    X = m1.group(1)
+    ps = params_of(hf)
+    subst = ctx.facts(hf).keys.subst
+    for i, p in enumerate(ps):
+        own = '%s#%s' % (p.get('name'), p.get('id'))
+        if X in (own, '*(%s)' % own, subst.get(p.get('id')), 'param:%s[0]' % own):
+            return i
+    return None
 
 
 def ladd_(a, b, sign=1):
